@@ -513,6 +513,57 @@ def task_horizontal_pair(ctx, pname, src, tgt):
                     pre=([a_, b_], td2, it2), validate=False, scale_floor=1.0)
 
 
+def task_field_dtype(ctx, pname, src, tgt):
+  """ConservativeRegridder on integer- and boolean-valued fields (land/sea masks, categorical data stored as integers): with the field
+  values SYMBOLIC integers (z3 Int / Bool, term domain; conversions int -> float exact, float -> int truncation as ToInt) the output equals
+  the output for the same values given as float64 — i.e. constants, range and integrals hold for every field dtype.  A counterexample is
+  replayed on the real regridder with an array of that dtype."""
+  from dinosaur import horizontal_interpolation as hi
+  gs, gt = grids.make_grid(src), grids.make_grid(tgt)
+  ctx.encoded(hi.ConservativeRegridder.__call__, hi.ConservativeRegridder._mean)
+  for skipna in (False, True):
+    rg = hi.ConservativeRegridder(gs, gt, skipna=skipna)
+    for dname, dt, sort in (('int64', jnp.int64, 'int'), ('int32', jnp.int32, 'int'), ('bool', jnp.bool_, 'bool')):
+      conf = dict(pair=pname, source=grids.cfg_name(src), target=grids.cfg_name(tgt), field_dtype=dname, skipna=skipna, values='[-8, 8]' if sort == 'int' else '{0,1}')
+      cname = 'horizontal.integer_and_boolean_fields_regrid_like_their_float_values'
+      sp = TermSpace()
+      n = int(np.prod(gs.nodal_shape))
+      if sort == 'int':
+        fi = TermArr.variables(sp, 'f', gs.nodal_shape, sort='int')
+        pre = [z3.And(x >= -8, x <= 8) for x in fi.a.reshape(-1)]
+      else:
+        arr = np.empty(n, dtype=object)
+        for i in range(n):
+          arr[i] = z3.Bool(f'f_{i}'); sp.vars.append(arr[i])
+        fi = TermArr(arr.reshape(gs.nodal_shape), sp); pre = []
+      ff = fi.to_float()
+      try:
+        cl_i = jax.make_jaxpr(lambda f: rg(f))(jnp.zeros(gs.nodal_shape, dt))
+        cl_f = jax.make_jaxpr(lambda f: rg(f))(jnp.zeros(gs.nodal_shape, jnp.float64))
+        oi = Interp(sp).run(cl_i, fi)[0]; of = Interp(sp).run(cl_f, ff)[0]
+      except Exception as e:  # noqa: BLE001
+        ctx.error(cname, f'{dname}: {type(e).__name__}: {e}')
+        continue
+      li = [_r(x) for x in oi.to_float().a.reshape(-1)]; lf = [_r(x) for x in of.a.reshape(-1)]
+      tol = Q(1e-9)
+      ok, model = decide(ctx, cname, conf, pre, z3.Or(*[z3.Or(a - b > tol, b - a > tol) for a, b in zip(li, lf)]), 'QF_LIRA', timeout=60000)
+      if not ok and model is not None:
+        vals = []
+        for x in fi.a.reshape(-1):
+          v = model.eval(x, model_completion=True)
+          vals.append(bool(z3.is_true(v)) if sort == 'bool' else int(v.as_long()))
+        xv = np.asarray(vals).reshape(gs.nodal_shape).astype(np.dtype(dname))
+        got = np.asarray(rg(jnp.asarray(xv))); want = np.asarray(rg(jnp.asarray(xv, jnp.float64)))
+        d = float(np.max(np.abs(got.astype(float) - want)))
+        if d > 1e-9:
+          ctx.violation(cname, dict(config=conf, kind='field-dtype'), dict(inputs=[xv.tolist()], dtype=dname, output_dtype=str(got.dtype), max_abs_difference=d),
+                        f'{pname}: regridding a {dname} field gives {got.dtype} values that differ by {d:.3g} from regridding the same values as float64 '
+                        '(constants / integrals are not preserved for this field dtype)')
+        else:
+          ctx.error(cname, f'{dname}: counterexample did not replay on the real regridder')
+
+
+
 def make_tasks(tier, seed):
   tasks = []
   sizes = [(3, 2), (4, 3), (6, 5)] + ([(8, 6)] if tier != 'quick' else [])
@@ -533,6 +584,8 @@ def make_tasks(tier, seed):
       tasks.append(dict(name=f'longitude-{ns}x{nt}', fn='task_longitude', kw=dict(ns=ns, nt=nt)))
   for pname, s, t in grid_pairs(tier):
     tasks.append(dict(name=f'pair-{pname}', fn='task_horizontal_pair', kw=dict(pname=pname, src=s, tgt=t)))
+  for pname, s, t in grid_pairs(tier)[:(2 if tier == 'quick' else 6)]:
+    tasks.append(dict(name=f'dtype-{pname}', fn='task_field_dtype', kw=dict(pname=pname, src=s, tgt=t)))
   return tasks
 
 
